@@ -59,7 +59,7 @@ def run_case(case):
 
 
 def run(ctx):
-    proof = core.prove(MODULES, leanchecker=ctx.thorough)
+    proof = core.prove(MODULES, extra_targets=["AdaptiveProofs.Examples.L1D"], leanchecker=ctx.thorough)
     failures = []
     corr = core.Corr("Learner1D.ask~L1D.lean")
     cases = c01.gen_cases(ctx.rng, ctx.n(160, 3000), ctx.n(50, 110))
